@@ -207,7 +207,7 @@ class Exec:
                 else:
                     nxt.extend(self.stmt(s, o.st))
             outs = nxt
-            cut = cuts.get(getattr(s, "end_lineno", None)) or cuts.get(getattr(s, "lineno", None))
+            cut = cuts.get(("node", id(s))) or cuts.get(getattr(s, "end_lineno", None)) or cuts.get(getattr(s, "lineno", None))
             if cut is not None:
                 # sidecar cut point: intermediate facts are proved here (small context) and carried forward as hypotheses
                 for o in outs:
